@@ -290,6 +290,29 @@ def main():
         X.error_msg = em
     except Exception:  # noqa
         pass
+    # ---- strengthening round 5: every construction of exception.JMCDecodeJSONError (its own position arithmetic, not error_msg):
+    # the token, json's (lineno, colno, pos), whether json was given the token's text, and the message it wrote
+    try:
+        from jmc.compile import exception as X5
+        orig_jinit = X5.JMCDecodeJSONError.__init__
+
+        def jinit(self, error, token, tokenizer, *a, **kw):
+            orig_jinit(self, error, token, tokenizer, *a, **kw)
+            try:
+                if state.get("jerrs") is not None and len(state["jerrs"]) < 20:
+                    fs = getattr(tokenizer, "file_string", None)
+                    if isinstance(fs, str) and fs not in state["fs_idx"]:
+                        state["fs_idx"][fs] = len(state["fs"])
+                        state["fs"].append(fs)
+                    state["jerrs"].append({
+                        "token": tk(token), "lineno": error.lineno, "colno": error.colno, "pos": error.pos,
+                        "doc_is_token": error.doc == token.string, "msg": str(self)[:600], "cited": cited_of(str(self)),
+                        "fs": state["fs_idx"].get(fs) if isinstance(fs, str) else None, "macros": bool(Header().macros)})
+            except Exception:  # noqa
+                pass
+        X5.JMCDecodeJSONError.__init__ = jinit
+    except Exception:  # noqa
+        pass
     signal.signal(signal.SIGALRM, _alarm)
     jobs = json.load(sys.stdin)
     real_stdout = sys.stdout
@@ -301,6 +324,7 @@ def main():
         state["derived"] = [] if trace else None
         state["raw"] = [] if trace else None
         state["errs"] = [] if trace else None
+        state["jerrs"] = [] if trace else None
         state["fs"], state["fs_idx"] = [], {}
         signal.alarm(int(job.get("timeout", 10)))
         try:
@@ -326,6 +350,7 @@ def main():
         r["derived"] = state["derived"] or []
         r["raw_handovers"] = state["raw"] or []
         r["error_msgs"] = state["errs"] or []
+        r["json_errs"] = state["jerrs"] or []
         r["file_strings"] = state["fs"]
         out.append(r)
     sys.stdout = real_stdout
